@@ -204,7 +204,11 @@ def gen_texts(ctx: core.Ctx, n: int, pfv2: bool = False) -> list[str]:
 
 def correspondence(ctx: core.Ctx) -> None:
     check_texts(ctx, CORPUS, "corpus")
-    texts = gen_texts(ctx, ctx.budget(1200, 30000))
+    sv = G.same_variable_pairs(ctx.rng, ctx.budget(350, 10 ** 9))
+    svt = [f"{a} {ctx.rng.choice(['and', 'or'])} {b}" for a, b in sv]
+    for k in range(0, len(svt), 1500):
+        check_texts(ctx, svt[k:k + 1500], "same-variable")
+    texts = gen_texts(ctx, ctx.budget(1000, 30000))
     for k in range(0, len(texts), 1500):
         check_texts(ctx, texts[k:k + 1500], "gen")
     if ctx.thorough:
